@@ -4,7 +4,25 @@ package main
 // work on and the operations that are modelled rather than translated.
 
 func configure(g *gen) {
+	kvT := T{"opaque", "List (Bytes × Bytes)"}
 	g.structs = []StructSpec{
+		// extends.go: the URL builder.  `queries` (url.Values) is the list of the pairs added so far, `params` (M) the
+		// association list of the path parameters (values already turned into strings: `goutil.String` is not modelled)
+		{Go: "BuildRequestURL", Lean: "BRU", OptIn: true, Derive: "Repr, Inhabited", Fields: []FieldSpec{
+			{"queries", "url.Values", "queries", kvT},
+			{"params", "M", "params", kvT},
+			{"path", "string", "path", tStr},
+			{"scheme", "string", "scheme", tStr},
+			{"host", "string", "host", tStr},
+			{"user", "*url.Userinfo", "user", T{"opaque", "Option Nat"}},
+		}},
+		{Pkg: "net/url", Go: "URL", Lean: "URL", External: true, OptIn: true, Derive: "Repr, Inhabited", Fields: []FieldSpec{
+			{"Scheme", "string", "scheme", tStr},
+			{"User", "*Userinfo", "user", T{"opaque", "Option Nat"}},
+			{"Host", "string", "host", tStr},
+			{"Path", "string", "path", tStr},
+			{"RawQuery", "string", "rawQuery", tStr},
+		}},
 		{Go: "responseWriter", Lean: "RW", Fields: []FieldSpec{
 			{"status", "int", "status", tInt},
 			{"length", "int", "length", tInt},
@@ -96,6 +114,23 @@ func configure(g *gen) {
 			{Callee: "mMap[]=", Stmts: []string{"mMap := GoRt.setInsert mMap %1"}},
 			{Callee: "$.match", Stmts: []string{"let %t := env.match_ s %1 %2", "s := %t.2"},
 				Values: []string{"%t.1.1", "%t.1.2"}, Ts: []T{{"opaque", "Option ρ"}, {"opaque", "Option π"}}},
+		}})
+	// extends.go: BuildRequestURL.Build — arguments with a brace in the key are path parameters, the others query
+	// parameters; every `{…}` of the path (found by `varRegex`: parameter `findAll`) is replaced in ONE pass
+	// (`strings.NewReplacer`: parameter `replacer`) by the parameter stored under `{name}` (the regex of `{name:regex}`
+	// stripped).  The argument map M is the list of its pairs, visited in the order `ordKV`.
+	add(FnSpec{Recv: "BuildRequestURL", Func: "Build", Lean: "BRU.Build", UseStructs: []string{"BuildRequestURL", "URL"},
+		Extra: []string{"(ordKV : List (Bytes × Bytes) → List (Bytes × Bytes))", "(encode : List (Bytes × Bytes) → Bytes)",
+			"(findAll : Bytes → List Bytes)", "(replacer : List Bytes → Bytes → Bytes)"},
+		Types: map[string]T{"rux.M": kvT, "any": tStr, "url.Values": kvT}, MapOrder: "ordKV", Mutates: true,
+		Exts: []Ext{
+			{Callee: "goutil.String", Value: "%1", T: tStr},
+			{Callee: "$.queries.Add", Effect: "{ $ with queries := $.queries ++ [(%1, %2)] }"},
+			{Callee: "$.params[]=", Effect: "{ $ with params := GoRt.kvSet $.params %1 %2 }"},
+			{Callee: "$.params[]", Value: "(GoRt.kvGetD $.params %1)", T: tStr},
+			{Callee: "$.queries.Encode", Value: "(encode $.queries)", T: tStr},
+			{Callee: "varRegex.FindAllString", Value: "(findAll %1)", T: tStrList},
+			{Callee: "strings.NewReplacer(oldNews...).Replace", Value: "(replacer oldNews %1)", T: tStr},
 		}})
 	// route_cache.go
 	elem := T{"opaque", "Option Nat"} // *list.Element / *cacheNode: nil or the identity of a list element
